@@ -283,7 +283,9 @@ def obligations(rep, prop, group, replay=None):
     if not ps:
         rep.proved(f'{prop}.state', 'frames', f'module group `{group}`: nothing written at run time outlives a call', function=f'(modules: {group})', clause=clause)
         return
+    emitted = 0
     for kind, suffix, detail, hard in ps:
+        emitted += 1
         oid = f'{prop}.state.{kind}.{suffix}'
         if hard:
             rp = replay() if callable(replay) else replay
@@ -295,5 +297,8 @@ def obligations(rep, prop, group, replay=None):
             entry = detail.split(' is memoised (@')[0] + ' @' + detail.split(' is memoised (@')[1].split(')')[0] + ')'
             pr = memo_probe([entry])[0]
             if pr[1] == 'immutable':
+                emitted -= 1
                 continue
             rep.undecided(oid, 'frames', detail + (f': {pr[3]}' if pr[1] == 'shared-mutable' else ': the memoised result type needs a contract'), function=f'(modules: {group})', clause=clause)
+    if not emitted:
+        rep.proved(f'{prop}.state', 'frames', f'module group `{group}`: nothing written at run time outlives a call (memoised functions return immutable values)', function=f'(modules: {group})', clause=clause)
